@@ -5934,3 +5934,75 @@ func checkNotLastIterationOnly(p *Program, r *Report, rule string, entries []str
 	}
 	r.Floor(rule, "boolean functions with a loop in the closure", n, floor)
 }
+
+// ---------------------------------------------------------------------------
+// R10k EXISTENCE-TEST-IS-STRICT. Several rules accept a guard by the reviewed
+// existence test (the table existenceTests) as proof that a position exists.
+// The test itself answers by comparing a row-0 position - the position, or
+// the leftmost leaf below it - with the leaf count; row-0 positions run from
+// 0 to numLeaves-1, so every such comparison is strict: "position < leaf
+// count" means "exists" and nothing else does. A test that lets
+// pos == numLeaves through reports the sibling of a whole-tree root as
+// existing exactly when every lower bit of the leaf count is set.
+
+func checkExistenceTestStrict(p *Program, r *Report, rule string) {
+	var names []string
+	for n := range existenceTests {
+		names = append(names, n)
+	}
+	sort.Strings(names)
+	total := 0
+	for _, name := range names {
+		if name != "inForest" {
+			continue // the other reviewed tests are exact only together with a row bound (see R08e)
+		}
+		fn := p.Func(name)
+		if fn == nil {
+			r.MissingAnchor(rule, name, "reviewed existence test not found")
+			continue
+		}
+		lc := leafCountParams(p)
+		isCount := func(v ssa.Value) bool {
+			par, ok := v.(*ssa.Parameter)
+			if ok && (lc[par] || strings.EqualFold(par.Name(), "numLeaves")) {
+				return true
+			}
+			return false
+		}
+		n := 0
+		for _, b := range fn.Blocks {
+			for _, in := range b.Instrs {
+				bo, ok := in.(*ssa.BinOp)
+				if !ok {
+					continue
+				}
+				var posSide ssa.Value
+				var op token.Token
+				switch {
+				case isCount(bo.Y):
+					posSide, op = bo.X, bo.Op
+				case isCount(bo.X):
+					posSide = bo.Y
+					op = map[token.Token]token.Token{token.LSS: token.GTR, token.GTR: token.LSS, token.LEQ: token.GEQ, token.GEQ: token.LEQ, token.EQL: token.EQL, token.NEQ: token.NEQ}[bo.Op]
+				default:
+					continue
+				}
+				_ = posSide
+				switch op {
+				case token.LSS, token.GEQ, token.LEQ, token.GTR, token.EQL, token.NEQ:
+				default:
+					continue
+				}
+				n++
+				total++
+				key := fmt.Sprintf("%s/compare-with-leaf-count#%d", name, n)
+				if op == token.LSS || op == token.GEQ {
+					r.Discharge(rule, key, posOf(p, bo), "the position is compared strictly with the leaf count (position < leaf count, or its negation)", true)
+				} else {
+					r.Violate(rule, key, posOf(p, bo), fmt.Sprintf("the reviewed existence test compares a row-0 position with the leaf count using %s: row-0 positions run from 0 to numLeaves-1, so a position equal to the leaf count does not exist - the test would report the sibling of a whole-tree root as existing when every lower bit of the leaf count is set, and every rule that trusts this test would trust it wrongly", op.String()), "in "+name)
+				}
+			}
+		}
+	}
+	r.Floor(rule, "comparisons with the leaf count in the reviewed existence test", total, 2)
+}
